@@ -244,12 +244,15 @@ func (r *Report) Finish(verifDir string) int {
 				_ = os.Remove(o)
 			}
 		}
-		printed := 0
+		printed, written := 0, 0
 		for _, v := range unlisted {
 			h := sha256.Sum256([]byte(v.Kind + "|" + v.Sig))
 			p := filepath.Join(verifDir, "replays", fmt.Sprintf("%s-%s.json", r.Prop, hex.EncodeToString(h[:6])))
-			vb, _ := json.MarshalIndent(v, "", " ")
-			_ = os.WriteFile(p, vb, 0o644)
+			if written < 400 { // keep the artefact directory bounded; the evidence counts all of them
+				vb, _ := json.MarshalIndent(v, "", " ")
+				_ = os.WriteFile(p, vb, 0o644)
+				written++
+			}
 			g := v.Kind + "|" + v.Group
 			perGroup[g]++
 			if perGroup[g] <= 2 && printed < maxPrint {
